@@ -395,6 +395,18 @@ func (e *Engine) applyContract(st *State, fc *contract.Func, f *ssa.Function, si
 	for _, r := range fc.Requires {
 		e.check(st, "call-pre", name+" "+clauseLabel(r), propsOr(r.Props, "SAFETY"), e.evalBool(env, r.Expr), pos)
 	}
+	if so, ok := fc.Opts["stream"]; ok {
+		// the callee reads its buffer as a window of the ghost stream: prove it here
+		parts := strings.Split(so, ",")
+		bv := env.vars[strings.TrimSpace(parts[0])].(SliceV)
+		seq := env.vars[strings.TrimSpace(parts[1])].(SeqV)
+		base := env.vars[strings.TrimSpace(parts[2])].(IntV).T
+		j := smt.Fresh("j!s", smt.Int)
+		scratch := st.clone()
+		elem := scratch.loadElem(bv.Elem, nil, bv.Arr, smt.Add(bv.Off, j)).(IntV).T
+		goal := smt.Forall([]*smt.Term{j}, smt.Implies(smt.And(smt.Le(smt.IntC(0), j), smt.Lt(j, bv.Len)), smt.Eq(elem, smt.Select(seq.Arr, smt.Add(base, j)))))
+		e.check(st, "call-pre", name+" stream", []string{"SAFETY"}, goal, pos)
+	}
 	pre := st.clone()
 	env.old = pre
 	// havoc modifies
@@ -402,6 +414,11 @@ func (e *Engine) applyContract(st *State, fc *contract.Func, f *ssa.Function, si
 		e.havocTarget(st, env, m, true)
 	}
 	env.st = st
+	if len(fc.Modifies) > 0 || !fc.Trusted {
+		na := smt.Fresh("alloc", smt.Int)
+		st.assume(smt.Le(st.alloc, na))
+		st.alloc = na
+	}
 	var res Value
 	if sig.Results().Len() > 0 {
 		res = e.opaqueResult(st, sig.Results(), name)
